@@ -142,8 +142,11 @@ func GetKeystoreFromJson(keysJson []byte) (*Keystore, error) {
 // NOTE: this func will leave the masterKeyPriv derived
 func (a *AddrManager) checkPassword(passphrase []byte) error {
 	if a.unlocked {
-		saltedPassphrase := append(a.privPassphraseSalt[:],
-			passphrase...)
+		// build the salted passphrase in a buffer of its own: appending an empty
+		// passphrase to the salt array's slice would alias (and then zero) the salt
+		saltedPassphrase := make([]byte, 0, len(a.privPassphraseSalt)+len(passphrase))
+		saltedPassphrase = append(saltedPassphrase, a.privPassphraseSalt[:]...)
+		saltedPassphrase = append(saltedPassphrase, passphrase...)
 		hashedPassphrase := sha512.Sum512(saltedPassphrase)
 		zero.Bytes(saltedPassphrase)
 		if !bytes.Equal(hashedPassphrase[:], a.hashedPrivPassphrase[:]) {
